@@ -250,16 +250,26 @@ func c16Families(tier string) []explore.Family {
 	if tier == "thorough" {
 		T = S2
 	}
-	// every character of Unicode that has a case mapping (about 2800; for many the mapped character has another
+	// every character of Unicode that has a case mapping or an encoding byte that looks like Latin-1 whitespace (about 2800 + 2000; for many the mapped character has another
 	// UTF-8 width, e.g. dotless i U+0131 -> I, long s U+017F -> S, U+2C65 -> U+023A), alone, first and last in a
 	// short string, through the filters that work character by character
 	var cased []rune
 	for r := rune(0x80); r <= 0x1FFFF; r++ {
-		if unicode.ToUpper(r) != r || unicode.ToLower(r) != r || unicode.ToTitle(r) != r {
+		if !utf8.ValidRune(r) || (r >= 0xD800 && r <= 0xDFFF) {
+			continue
+		}
+		enc := string(r)
+		// ... and every character whose UTF-8 encoding contains a byte that is whitespace when read as Latin-1
+		// (0x85 NEL, 0xA0 NBSP), without being whitespace itself: byte-wise scanning would split words there
+		latin1ws := !unicode.IsSpace(r) && (strings.ContainsRune(enc[1:], 0) || strings.IndexByte(enc, 0x85) >= 0 || strings.IndexByte(enc, 0xA0) >= 0)
+		if latin1ws && r > 0x2FFF && r%16 != 0 {
+			latin1ws = false // beyond U+2FFF one in sixteen of them (about 2000 in all)
+		}
+		if unicode.ToUpper(r) != r || unicode.ToLower(r) != r || unicode.ToTitle(r) != r || latin1ws {
 			cased = append(cased, r)
 		}
 	}
-	caseOps := []string{"upcase", "downcase", "capitalize", "size", "slice01", "truncate1", "capitalize-size"}
+	caseOps := []string{"upcase", "downcase", "capitalize", "size", "slice01", "truncate1", "capitalize-size", "truncatewords", "strip", "split-blank"}
 	fams = append(fams, explore.Family{Name: "every-cased-character", Count: int64(len(cased) * 3 * len(caseOps)), Run: func(i int64, r *explore.Rec) {
 		rx := radix{i}
 		op, pos, ch := caseOps[rx.next(len(caseOps))], rx.next(3), cased[rx.next(len(cased))]
@@ -289,6 +299,18 @@ func c16Families(tier string) []explore.Family {
 		case "truncate1":
 			o = c16Render("{{ s | truncate: 1, '' }}", b)
 			c.want(o, string(rs[0]))
+		case "truncatewords":
+			w := "a" + string(ch) + "b c" + string(ch) + " d"
+			o = c16Render("{{ w | truncatewords: 1, '~' }}|{{ w | truncatewords: 2, '~' }}|{{ w | truncatewords: 3 }}", map[string]any{"w": w})
+			c.want(o, "a"+string(ch)+"b~|a"+string(ch)+"b c"+string(ch)+"~|"+w)
+		case "strip":
+			w := " \t" + s + "\n "
+			o = c16Render("[{{ w | strip }}][{{ w | lstrip }}][{{ w | rstrip }}]", map[string]any{"w": w})
+			c.want(o, "["+s+"]["+s+"\n ][ \t"+s+"]")
+		case "split-blank":
+			w := s + " x " + s
+			o = c16Render("{{ w | split: ' ' | size }}|{{ w | split: ' ' | join: '+' }}", map[string]any{"w": w})
+			c.want(o, "3|"+s+"+x+"+s)
 		default:
 			o = c16Render("{{ s | capitalize | size }}|{{ s | upcase | downcase | size }}", b)
 			c.want(o, strconv.Itoa(len(rs))+"|"+strconv.Itoa(len(runes(mapRunes(mapRunes(s, unicode.ToUpper), unicode.ToLower)))))
